@@ -364,6 +364,27 @@ fn para_case<B: Backend>(c: &ParaCase, acc: &mut Acc) -> R {
     }
 }
 
+/// Argon2id memory cost of 4 GiB (a byte count that no longer fits 32 bits; 2^22 KiB blocks): the
+/// back end must wrap, and the blob must be the specification's (the reference unwraps it).
+fn big_mem_case<B: Backend>(c: &ParaCase, acc: &mut Acc) -> R {
+    let name = B::NAME;
+    let ver = B::VER;
+    let params = PwParams::Argon2id { mem_bytes: c.kib as u64 * 1024, time: c.time as u32, para: 1 };
+    let pw = c.password.bytes();
+    let ptk = local_key_bytes(&c.wrapped).to_vec();
+    let text = local_key::<B>(&c.wrapped)
+        .password_wrap_with_params(&pw, &pw_params::<B>(&params))
+        .map(|w| w.to_string())
+        .map_err(|e| Fail::new(format!("C07/{name}/pbkw/local/4gib/wrap-failed"), format!("password wrap with {params:?} failed: {e}")))?;
+    acc.eval();
+    acc.nt(hash_of(&(&c.wrapped, &c.password, c.kib)));
+    acc.class("pbkw:memory>=4GiB");
+    match model::pbkw_unwrap(ver, "local", &pw, &text) {
+        Ok(k) if same_key(&k, &ptk) => Ok(()),
+        other => Err(Fail::new(format!("C07/{name}/pbkw/local/4gib/impl-vs-spec"), format!("the blob carries {params:?} but the reference does not unwrap it to the key ({:?})", other.map(|k| k.len())))),
+    }
+}
+
 fn subs_for<B: Backend>(out: &mut Vec<SubCheck>) {
     let v1 = B::VER == Ver::V1;
     for kind in 0u8..3 {
@@ -398,6 +419,18 @@ fn subs_for<B: Backend>(out: &mut Vec<SubCheck>) {
             },
         ));
     }
+    if !B::VER.nist() {
+        out.push(SubCheck::prop_exact(
+            format!("c07.pbkw-4gib/{}", B::NAME),
+            30,
+            (1, 3),
+            |_tier| (gens::key_seed(), gens::password(), prop_oneof![2 => Just(4u32 * 1024 * 1024), 1 => Just(4 * 1024 * 1024 + 1), 1 => Just(4 * 1024 * 1024 + 1024)]).prop_map(|(wrapped, password, kib)| ParaCase { secret: false, wrapped, password, kib, time: 1, para: 1 }),
+            |c: &ParaCase, acc: &mut Acc| {
+                rng::reseed_case(hash_of(&(&c.wrapped, c.kib)));
+                big_mem_case::<B>(c, acc)
+            },
+        ));
+    }
     if B::GETRANDOM {
         out.push(SubCheck::prop(
             format!("c07.pke-scripted/{}", B::NAME),
@@ -415,7 +448,7 @@ pub fn def() -> PropertyDef {
     PropertyDef {
         id: "C07",
         level: "exploration",
-        rule: "proptest cases (kind {PIE, PBKW, PKE} x wrapped key {local, secret} x wrapping key / password / recipient x PBKW parameters within budget (p = 1..4 where supported) x nonce kind {seeded, zero, ones, counter block at the 64/128-bit wrap} x optional forced derived counter block (paseto_verif hook; v1/v3 PIE and PKE)); relations: (1) the library's blob equals the reference model's blob recomputed from the nonce/salt/ephemeral key it embeds (PKE: recomputed with the recipient secret; with scripted RNG the ephemeral key itself is compared), (2) model-built blobs with model-chosen nonces (incl. 0xff..ff counter blocks in k1/k3 password wraps) unwrap to the same key on every back end of the version, (3) the sibling unwraps this back end's output, (4) Argon2id parallelism 2..4 on every v2/v4 back end: the back end either declines or produces the blob the reference (argon2 crate, p lanes) unwraps. Non-trivial iff wrap-around nonce kind, secret key payload, PBKW (non-default parameters) or forced IV",
+        rule: "proptest cases (kind {PIE, PBKW, PKE} x wrapped key {local, secret} x wrapping key / password / recipient x PBKW parameters within budget (p = 1..4 where supported) x nonce kind {seeded, zero, ones, counter block at the 64/128-bit wrap} x optional forced derived counter block (paseto_verif hook; v1/v3 PIE and PKE)); relations: (1) the library's blob equals the reference model's blob recomputed from the nonce/salt/ephemeral key it embeds (PKE: recomputed with the recipient secret; with scripted RNG the ephemeral key itself is compared), (2) model-built blobs with model-chosen nonces (incl. 0xff..ff counter blocks in k1/k3 password wraps) unwrap to the same key on every back end of the version, (3) the sibling unwraps this back end's output, (4) Argon2id parallelism 2..4 on every v2/v4 back end: the back end either declines or produces the blob the reference (argon2 crate, p lanes) unwraps, (5) one password wrap per v2/v4 back end with a memory cost of 4 GiB or just above (byte counts beyond 32 bits): must wrap, and the reference unwraps it. Non-trivial iff wrap-around nonce kind, secret key payload, PBKW (non-default parameters) or forced IV",
         assumptions: vec!["reference model validated on the upstream vectors", "Argon2id through libsodium for parallelism 1 and through the argon2 crate for parallelism 2..4 (RustCrypto back ends only); memory multiples of 1 KiB"],
         subs,
     }
